@@ -14,3 +14,10 @@ add("C13", "bounded-exhaustive enumeration of pattern trees x sequences + Hypoth
     "are run through match, nfa_match and starts_with and compared with an independent derivative-based reference that is itself "
     "cross-checked against Python's re on every run; random larger trees/sequences beyond. Complete inside the bound.",
     "trusts vf/ref/regex.py (cross-checked against re) and, for sequences longer than 3, per-tree memoisation of the automaton build")
+
+add("C14", "bounded-exhaustive enumeration (pattern trees and shipped header shapes x sequences) + Hypothesis, reference greedy matcher",
+    "find_all is run on every non-nullable tree with <= 4 nodes x every sequence of length <= 6 (thorough 5 / 8) and on the header "
+    "expressions captured from the seven language modules x every token-class sequence of length <= 6 (thorough 8); each result is "
+    "checked clause by clause (bounds, tokens, language membership, longest, order, disjointness, coverage) against reference greedy "
+    "ends computed by derivatives / a depth-counting scanner. Complete inside the bounds.",
+    "trusts vf/ref/regex.py and the 40-line header-shape scanner in vf/props/c14.py; token classes are one representative per kind/value")
